@@ -16,6 +16,10 @@ DEPTH = N(["prim", "cons", [["const", ["s", "D"]], ["depth"]]], "(cons 'D (verif
 CONTEXTS = {
     "if-then": lambda c: if_(prim("<", I(1), I(2)), c, I(0)),
     "if-else": lambda c: if_(prim("<", I(2), I(1)), I(0), c),
+    "if-else-after-prim": lambda c: if_(prim("<", V("li"), I(0)), prim("+", V("lacc"), I(0)), c),
+    "if-else-after-car": lambda c: if_(prim("<", V("li"), I(0)), prim("car", prim("list", V("lacc"))), c),
+    "cond-after-prim-clause": lambda c: cond([(prim("<", V("li"), I(0)), prim("*", V("lacc"), I(2))), (prim("=", V("li"), I(-5)), prim("reverse", prim("list", V("li"))))], c),
+    "if-else-after-set": lambda c: if_(prim("<", V("li"), I(0)), cg.set_("lacc", I(0)), c),
     "cond": lambda c: cond([(prim("=", I(1), I(2)), I(0))], c),
     "cond-clause": lambda c: cond([(prim("=", I(1), I(1)), c)], I(0)),
     "case": lambda c: case(I(3), [([1, 2], I(0)), ([3], c)], I(0)),
@@ -130,7 +134,8 @@ def run():
         chk.cov["iterations_long_run"] = bigN
         # ---- deep non-tail recursion through the embedding API
         exe = vlib.compile_c(build, os.path.join(vlib.VERIF, "harness", "c", "deeprec.c"), sc.file("deeprec"))
-        depths = [1, 10, 300, 1000, 5000, 10000, 40000, 100000, 300000, 1000000, 10000000, 5, -1000, -20000, -300000, -2000000, 7]
+        depths = [1, 10, 300, 1000, 5000, 10000, 40000, 100000, 300000, 1000000, 10000000, 5, -1000, -20000, -300000, -2000000, 7,
+                  3000001, 3000900, 3001500, 3005000, 3020000, 3100000, 4000001, 4000300, 4005000, 4001000, 9]
         if chk.thorough:
             depths += [2 ** k for k in range(4, 24)] + [-(2 ** k) for k in range(4, 22)]
         p = subprocess.run([exe] + [str(d) for d in depths], env=build.env(), cwd=vlib.REPO, stdout=subprocess.PIPE, stderr=subprocess.PIPE, timeout=900)
